@@ -259,8 +259,26 @@ def check_C13(tier, seed):
             path = save_replay(pid, '# no concrete failing input found\n', note)
             log('VIOLATION property=%s replay=%s no-failing-input-found' % (pid, path))
         violations = 1
+    # "so deferred per-stripe migration never strands or misroutes a key": the arithmetic is only sound for deferral when
+    # the old bucket count is a multiple of the stripe count - whether the code defers exactly then is checked by
+    # resize scripts (shrink below the stripe count, then grow again) against the model and the acceptor
+    mig_res = []
+    if okm and not violations:
+        mcfgs = [t1.mkcfg(2, 1, 0), t1.mkcfg(4, 2, 0), t1.mkcfg(1, 2, 0)]
+        mig_res, _, _ = t1_run(pid, tier, seed + 5, mcfgs, 60 if tier == 'quick' else 1500, ['resize', 'stream', 'grow', 'resize'])
+        bad = [r for r in mig_res if blame_kinds(r) & {'C02', 'C05', 'CRASH'}]
+        if bad:
+            r = bad[0]
+            txt = open(r['path']).read() if os.path.exists(r['path']) else ''
+            path = save_replay(pid, txt, 'a key is stranded or misrouted by migration after a doubling: blames=%s status=%s detail=%s' % (r.get('blames', [])[:4], r['status'], json.dumps(r.get('detail'))[:500]))
+            log('VIOLATION property=%s replay=%s' % (pid, path)); violations = 1
+        elif [r for r in mig_res if r['status'] in ('mismatch', 'model_error', 'judge_error')]:
+            r = [r for r in mig_res if r['status'] in ('mismatch', 'model_error', 'judge_error')][0]
+            txt = open(r['path']).read() if os.path.exists(r['path']) else ''
+            path = save_replay(pid, txt, 'correspondence T1 on resize scripts broke: ' + json.dumps(r.get('detail'))[:600])
+            log('VIOLATION property=%s replay=%s no-failing-input-found' % (pid, path)); violations = 1
     ntheorems = len([t for t in theorems if t.startswith('C13_')])
-    cov = dict(obligations=max(ntheorems, 1), discharged=(ntheorems if okc else 0),
+    cov = dict(obligations=max(ntheorems, 1), discharged=(ntheorems if okc else 0), migration_scripts=len(mig_res),
                checker_cmd='make -C coq Properties_C13.vo (coqc 8.16.1, full .vo)',
                trusted_base=TRUSTED_BASE,
                print_assumptions=dict(closed_under_global_context=closed, axioms=axioms),
@@ -537,6 +555,47 @@ def coq_stage(target):
         broken.append('model build failed: ' + mlog[-400:])
     return broken, okc, theorems, closed, axioms, changed
 
+def capi_layout_check():
+    """second instantiation of the C template (uint16_t -> uint64_t: the in-memory pair has padding): exact file bytes
+    against the width-generic format (count, then key bytes and mapped bytes per element, no padding), round trip
+    through <table>_read and every truncated prefix.  Returns a list of failure descriptions."""
+    out = os.path.join(BUILD, 'capi_layout')
+    r = subprocess.run(['g++', '-std=gnu++17', '-O1', '-g', '-I', REPO, '-DLIBCUCKOO_VERIF=1', os.path.join(V, 'harness', 'capi_layout.cc'), '-o', out, '-lpthread'],
+                       capture_output=True, text=True)
+    if r.returncode != 0:
+        return ['the C template no longer compiles for uint16_t -> uint64_t: ' + r.stderr[-400:]], 0
+    try:
+        rr = subprocess.run([out], capture_output=True, text=True, timeout=120)
+    except subprocess.TimeoutExpired:
+        return ['padded-pair instantiation: run did not finish'], 0
+    fails, n = [], 0
+    if rr.returncode != 0:
+        fails.append('padded-pair instantiation: harness exited with status %s' % rr.returncode)
+    lines = [ln for ln in rr.stdout.split('\n') if ln.startswith('LAYOUT')]
+    fields = [dict(kv.split('=', 1) for kv in ln.split()[1:]) for ln in lines]
+    # expected bytes: the extracted width-generic codec (coq/CodecW.encode_file_w 2 8) on the pairs in iteration order
+    mq = subprocess.run([os.path.join(BUILD, 'ml', 'model_driver'), '--codecw'], input=''.join('2 8 %s\n' % (f['order'] or '-') for f in fields),
+                        capture_output=True, text=True, timeout=120)
+    model = [l.split() for l in mq.stdout.split('\n') if l.strip()]
+    if len(model) != len(fields):
+        return ['the extracted codec did not answer (%s)' % mq.stderr[-200:]], 0
+    for f, (mhex, mback) in zip(fields, model):
+        n += 1
+        pairs = [tuple(int(x) for x in p.split(':')) for p in f['order'].split(',') if p]
+        exp = bytes.fromhex(mhex)
+        if mback != 'true':
+            fails.append('model: decode_file_w_chk (encode_file_w ..) does not give the pairs back')
+        rej, ln_ = f['rejected'].split('/')
+        if f['bytes'] != exp.hex():
+            fails.append('uint16_t->uint64_t table of %s elements: file bytes are not count + (2 key bytes, 8 mapped bytes) per element: got %d bytes %s..., expected %d bytes %s...' % (f['n'], len(f['bytes']) // 2, f['bytes'][:60], len(exp), exp.hex()[:60]))
+        elif f['roundtrip'] != '1':
+            fails.append('uint16_t->uint64_t table of %s elements: reading the written file back does not give the same contents' % f['n'])
+        elif rej != ln_:
+            fails.append('uint16_t->uint64_t table of %s elements: %d of %s truncated prefixes were accepted by _read' % (f['n'], int(ln_) - int(rej), ln_))
+    if n == 0 and not fails:
+        fails.append('padded-pair instantiation: no output')
+    return fails, n
+
 def check_C14(tier, seed):
     t0 = time.time()
     pid = 'C14'
@@ -556,7 +615,11 @@ def check_C14(tier, seed):
     viol = [r for r in res if r['status'] in ('impl_crash', 'harness_error') or
             any(b.split()[2] in ('C14', 'C02', 'C05', 'C09', 'C17', 'C10') for b in r.get('blames', []))]
     violations = 0
-    if viol:
+    lay_fails, lay_n = capi_layout_check()
+    if lay_fails and not viol:
+        path = save_replay(pid, '# harness/capi_layout.cc (no script: fixed tables of 0,1,2,3,7,20 elements of the instantiation uint16_t -> uint64_t)\n# run: g++ -std=gnu++17 -O1 -I /repo harness/capi_layout.cc -o capi_layout -lpthread && ./capi_layout\n', lay_fails[0])
+        log('VIOLATION property=%s replay=%s' % (pid, path)); violations = 1
+    elif viol:
         r = viol[0]
         txt = open(r['path']).read() if os.path.exists(r['path']) else ''
         path = save_replay(pid, txt, 'C interface disagrees with the reference behaviour: blames=%s status=%s detail=%s' % (
@@ -577,7 +640,7 @@ def check_C14(tier, seed):
                evaluations=len(res), distinct_nontrivial=len(set(r['path'] for r in okres if r.get('features'))),
                rule='T4: seeded C-interface scripts (dense / strided / random int keys; normal, locked-table and iterator entry points; file write followed by _read of EVERY truncation length 0..8+8*(keys+3) and of the full file) run through the real C wrapper (stripe counts %s) and through the extracted L3 model; outputs, file bytes and complete internal state compared textually; extracted decode_file/judge_op judge every implementation output. non-trivial = reached growth/shrink/migration/exception' % lbs,
                samples=[dict(script_head=cases[0][1].split('\n')[:12])], traces_validated_against_impl=len(okres),
-               truncated_reads=nreads, operations_judged=sum(r.get('judged', 0) for r in res), mismatches=len(mism), gen_changed=changed)
+               padded_pair_instantiation_tables=lay_n, truncated_reads=nreads, operations_judged=sum(r.get('judged', 0) for r in res), mismatches=len(mism), gen_changed=changed)
     write_evidence(pid, tier, seed, cov, time.time() - t0, violations, TRUSTED_BASE)
     if not violations: shutil.rmtree(os.path.join(BUILD, 'cases_' + pid), ignore_errors=True)
     return 1 if violations else 0
